@@ -371,7 +371,12 @@ pub fn main_codec(args: &[String]) {
         let mut o = observe(&case);
         if with_trace {
             // the same again under a TRACE-level subscriber: same answers, still no panic
-            let o2 = tracing::dispatcher::with_default(&dispatch, || observe(&case));
+            // callsites that were first reached without a subscriber have cached "never interested": rebuild
+            // the cache under the scoped subscriber so that every event and span of the crates is really evaluated
+            let o2 = tracing::dispatcher::with_default(&dispatch, || {
+                tracing::callsite::rebuild_interest_cache();
+                observe(&case)
+            });
             o["traced_same"] = json!(o2 == o);
             o["traced_panic"] = json!(has_panic(&o2));
         }
